@@ -1,6 +1,7 @@
 """C03 — relayed answers are faithful to the upstream reply (structural clauses)."""
 from ..util import *
-from ..prov import strip, access_path, show, subterms
+from ..prov import strip, access_path, show, subterms, norm
+from ..cfg import cfg_of
 
 EXPLANATION = ("field-provenance rules over built MIR: every field of the client reply / upstream query / cached copy is "
                "traced back (through moves, clones, closures and coroutine captures) to the parameter field it "
@@ -27,8 +28,50 @@ def _fields_of_param_mentioned(P, body, term):
     return out
 
 
+def _r8_inflight(ctx):
+    """upstream TCP replies are handed to waiters by query id alone, so an id that is in flight must never be given to a second
+    waiter: every insertion into the id -> waiter table happens on the edge where the table does not contain the id"""
+    P = ctx.P
+    n = 0
+    for b in P.bodies.values():
+        if "dns::outquery" not in b.id:
+            continue
+        T = None
+        cfg = None
+        for bb, tm in b.calls():
+            nme = callee_name(tm) or ""
+            if not nme.endswith("HashMap::<K, V, S, A>::insert") and not nme.endswith("HashMap::<K, V, S>::insert"):
+                continue
+            g = " ".join(tm["callee"].get("gargs") or [])
+            if "oneshot::Sender" not in g:
+                continue
+            T = T or terms(P, b)
+            cfg = cfg or cfg_of(b)
+            a = [norm(x) for x in T.call_args(bb)]
+            mp = [y[2] for y in subterms(a[0]) if y[0] == "field"][:1]
+            n += 1
+            ctx.saw(b)
+            fe_all = []
+
+            def m(d, mp=mp):
+                return d[0] == "call" and str(d[1]).rsplit("::", 1)[-1] == "contains_key" and mp and any(y[0] == "field" and y[2] == mp[0] for y in subterms(d[2][0]))
+            for sb, d, te, fe in bool_switches(P, b, m):
+                k1, k2 = norm(d[2][1]), a[1]
+                f1 = [y[2] for y in subterms(k1) if y[0] == "field"]
+                f2 = [y[2] for y in subterms(k2) if y[0] == "field"]
+                if f1 and f1 == f2:
+                    fe_all.extend(fe)
+            # alternatively the previous occupant returned by insert is required to be None before anything is sent (not used by erbium)
+            ctx.check(edge_dominated(cfg, fe_all, bb), "R8", "in-flight-id-never-reassigned:%s" % (mp[0] if mp else "?"), ctx.where(b, tm["sp"]),
+                      "a waiter is registered under a query id without first establishing that no other waiter holds that id: the upstream's reply "
+                      "to the earlier query would be relayed to the later one, under a different question")
+    if ctx.config in ("default", "dns"):
+        ctx.floor("R8", "registrations of a waiter under a query id", n, 1)
+
+
 def run(ctx):
     P = ctx.P
+    _r8_inflight(ctx)
     # ---------------- R1: reply assembled from (query, upstream reply)
     cands = fn_with_sig(P, ["DnsMessage", "DNSPkt"], "DNSPkt")
     n_r1 = 0
